@@ -800,10 +800,32 @@ class Gen:
                      and tuple(info['bounds']) == tuple(proc['arr_bounds'][pname])]
                 args.append(['arr', r.choice(sorted(c))])
                 continue
-            if r.random() < 0.55:
+            k0 = r.random()
+            if k0 < 0.5:
                 lv = self.pick_lvalue(sc, pty)
                 if lv is not None:
                     args.append(lv)     # by reference
+                    continue
+            elif k0 < 0.7 and pty != '$':
+                # a variable (of the parameter's type or of another numeric
+                # type) made an expression by a neutral element: by value
+                vt = r.choice(self.num_types)
+                lv = self.pick_lvalue(sc, vt, writable=False)
+                if lv is not None and RANK[vt] <= RANK[pty] + 1:
+                    k = r.random()
+                    if k < 0.25:
+                        e = ['un', 'pos', lv]
+                    elif k < 0.5:
+                        e = ['bin', '+', lv, ['lit', '%', 0]]
+                    elif k < 0.65:
+                        e = ['bin', '*', lv, ['lit', '%', 1]]
+                    elif k < 0.8:
+                        e = ['bin', '-', lv, ['lit', '%', 0]]
+                    elif k < 0.9:
+                        e = ['bin', '+', ['lit', '%', 0], lv]
+                    else:
+                        e = ['par', lv]
+                    args.append(self.bounded(e, sc))
                     continue
             if pty == '$':
                 e = self.str_expr(sc, depth)
@@ -1268,6 +1290,14 @@ class Gen:
         for ty in self.num_types[:2]:
             n = self.new_scalar(sc, ty)
             body.append({'k': 'let', 'lv': ['var', n], 'e': self.lit(ty)})
+        # a parameter is often assigned to: visible to the caller exactly when
+        # the argument was passed by reference
+        nump = [pn for pn, pty, isarr in p['params'] if not isarr and pty in self.num_types
+                and not (p.get('recursive') and pn == p['params'][0][0])]
+        if nump and r.random() < 0.5:
+            pn = r.choice(nump)
+            body.append({'k': 'let', 'lv': ['var', pn],
+                         'e': ['bin', '+', ['var', pn], ['lit', '%', r.choice((1, 2, 5))]]})
         save = self.stmt_budget
         self.stmt_budget = r.randint(2, 6)
         if p.get('recursive'):
@@ -1702,7 +1732,28 @@ NEAR = (
 )
 
 
+def str_pair(r):
+    """Two string constants to compare; often one is a prefix of the other,
+    continued by a character that sorts below or above letters, digits and
+    the quote character."""
+    if r.random() < 0.6:
+        stem = r.choice(('a', 'ab', '1.2', 'B', '', 'a!'))
+        a = stem
+        b = stem + r.choice((' ', '!', ' x', '!x', '#', 'z', '~', '0', ' beta', 'A'))
+    else:
+        a, b = r.choice(('', 'a', 'B', 'ab', 'b', 'A', 'abc')), r.choice(('', 'a', 'B', 'ab', 'abd'))
+    if r.random() < 0.5:
+        a, b = b, a
+    return ['lit', '$', a], ['lit', '$', b]
+
+
 def const_expr(r, depth, strings=False, vars=()):
+    if vars and strings and depth > 0 and r.random() < 0.1:
+        # variable AND/OR a comparison of two string constants: not constant
+        # as a whole, so only the peephole pass can fold the comparison
+        a, b = str_pair(r)
+        return ['bin', r.choice(('and', 'or', 'and', 'xor')), ['var', r.choice(vars)],
+                ['bin', r.choice(CMP), a, b]]
     if vars and r.random() < 0.3:
         v = ['var', r.choice(vars)]
         x = r.random()
@@ -1713,7 +1764,9 @@ def const_expr(r, depth, strings=False, vars=()):
             return ['un', op, ['un', op, v]]
         if depth <= 0 or x < 0.6:
             return v
-        return ['bin', r.choice(C_OPS), v, const_expr(r, depth - 1, False, vars)]
+        # (the constant operand may be a comparison of two string constants:
+        # inside a non-constant expression only the peephole pass can fold it)
+        return ['bin', r.choice(C_OPS), v, const_expr(r, depth - 1, strings and r.random() < 0.5, vars)]
     if depth > 0 and r.random() < 0.12:
         # two values that are neighbours across types, compared
         a, b = r.choice(NEAR)
@@ -1745,7 +1798,7 @@ def const_expr(r, depth, strings=False, vars=()):
         return ['lit', ty, r.choice(BOUNDARY[ty])]
     x = r.random()
     if x < 0.12:
-        return ['un', r.choice(('neg', 'not')), const_expr(r, depth - 1)]
+        return ['un', r.choice(('neg', 'not')), const_expr(r, depth - 1, strings, vars)]
     if x < 0.18:
         return ['par', const_expr(r, depth - 1)]
     if x < 0.24:
@@ -1754,7 +1807,7 @@ def const_expr(r, depth, strings=False, vars=()):
             ty = r.choice('%&')
             arg = ['bin', '-', ['lit', ty, -32767 if ty == '%' else -2147483647], ['lit', ty, 1]]
         return ['fn', r.choice(('abs', 'cint', 'clng', 'int')), [arg]]
-    return ['bin', r.choice(C_OPS), const_expr(r, depth - 1), const_expr(r, depth - 1)]
+    return ['bin', r.choice(C_OPS), const_expr(r, depth - 1, strings, vars), const_expr(r, depth - 1, strings, vars)]
 
 
 def const_program(r):
